@@ -42,13 +42,25 @@ def bind_repo() -> None:
         sys.path.append(deps)
     import logging
 
-    logging.disable(logging.CRITICAL)  # library chatter off (capture handlers re-enable)
+    quiet_library_logging()
     import ramses_rf  # noqa: F401
     import ramses_tx
 
     where = os.path.realpath(ramses_tx.__file__)
     if not where.startswith(src + os.sep):
         raise SystemExit(f"refusing to run: ramses_tx imported from {where}, not {src}")
+
+
+def quiet_library_logging() -> None:
+    """Library chatter off (monitors that need records attach their own handler)."""
+    import logging
+
+    for name in ("ramses_tx", "ramses_rf", "ramses_cli", "asyncio"):
+        lg = logging.getLogger(name)
+        lg.setLevel(100)
+        lg.propagate = False
+        if not lg.handlers:
+            lg.addHandler(logging.NullHandler())
 
 
 def jsonable(x: Any, depth: int = 0) -> Any:
